@@ -275,6 +275,17 @@ impl AbstractTree for BlobTree {
 
     fn clear(&self) -> crate::Result<()> {
         let config = self.tree_config();
+
+        // IMPORTANT: Write lock, so no compaction is running that would
+        // install its (pre-clear) output tables into the cleared version afterwards
+        #[expect(clippy::expect_used, reason = "lock is expected to not be poisoned")]
+        let _lock = self
+            .index
+            .0
+            .major_compaction_lock
+            .write()
+            .expect("lock is poisoned");
+
         let mut versions = self.get_version_history_lock();
 
         let cleared_version = versions.latest_version().version;
